@@ -167,6 +167,15 @@ def directed_pair(draw):
 
 
 @st.composite
+def blocky_pair(draw):
+    """n beyond 2^16 (up to the 10^6 of the domain) with rare target values whose first rows straddle multiples of 65536:
+    block-wise scans must still take exactly the first quota rows of each value."""
+    n = draw(st.integers(70_000, 140_000))
+    return {'blocky': {'n': n, 'q': draw(st.integers(6, 40)), 'before': draw(st.integers(1, 8)), 'after': draw(st.integers(10, 120)),
+                       'seed': draw(st.integers(0, 2**32 - 1)), 'ky': draw(st.integers(2, 5))}}
+
+
+@st.composite
 def many_strata_pair(draw):
     """Many small strata (2..200 target values) and a ratio chosen so that floor(r*n) is an exact multiple of their number."""
     k = draw(st.integers(2, 200))
@@ -176,6 +185,17 @@ def many_strata_pair(draw):
 
 
 def materialize(case):
+    if 'blocky' in case:
+        g = case['blocky']
+        rng = np.random.Generator(np.random.PCG64(int(g['seed'])))
+        n = int(g['n'])
+        X = np.zeros(n, dtype=np.int64)
+        b = 65536
+        X[b - int(g['before']):b] = 1                       # a few rows of value 1 just before the block boundary ...
+        X[b + 5:b + 5 + int(g['after'])] = 1                # ... and more right after it
+        X[n - 40:n - 20] = 2                                # a rare value near the end
+        Y = rng.integers(0, int(g['ky']), size=n)
+        return Y.astype(np.int64), X.astype(np.int64)
     if 'manystrata' in case:
         g = case['manystrata']
         rng = np.random.Generator(np.random.PCG64(int(g['seed'])))
@@ -203,7 +223,10 @@ def c04_case(draw):
     n0, k0 = len(X0), len(set(X0.tolist()))
     lo = (k0 + 0.5) / n0 if n0 else 1.0
     mode = draw(st.integers(0, 5))
-    if 'manystrata' in case:
+    if 'blocky' in case:
+        g = case['blocky']
+        case['r'] = float(np.float32((3 * int(g['q']) + 1.5) / n0))      # quota = q for the three target values
+    elif 'manystrata' in case:
         # smallest float32 ratio with floor(r*n) == m*k exactly
         from fractions import Fraction
         g = case['manystrata']
@@ -222,6 +245,18 @@ def c04_case(draw):
                                    allow_nan=False).map(lambda r: float(np.float32(r))))
     else:
         case['r'] = draw(ratio())
+    case['c'] = draw(st.booleans())
+    case['heaps'] = [draw(heap_history()) for _ in range(3)]
+    case['alt'] = draw(st.integers(0, 2**31 - 1))
+    return case
+
+
+@st.composite
+def wide_case(draw):
+    case = dict(draw(blocky_pair()))
+    _, X0 = materialize(case)
+    g = case['blocky']
+    case['r'] = float(np.float32((3 * int(g['q']) + 1.5) / len(X0)))
     case['c'] = draw(st.booleans())
     case['heaps'] = [draw(heap_history()) for _ in range(3)]
     case['alt'] = draw(st.integers(0, 2**31 - 1))
@@ -248,7 +283,9 @@ def oracle(case, rec):
     cx = Counter(Xl)
     small_stratum = q > 0 and any(v < q for v in cx.values())
     tail = q > 0 and (small_stratum or q * len(values) < final)
-    rec.nt(tail or 'manystrata' in case, key=[Yl, Xl, r, c] if n <= 64 else [{k: v for k, v in case.items() if k in ('gen', 'strata', 'manystrata')}, r, c])
+    if 'blocky' in case:
+        rec.cls('n>65536:quota-rows-straddle-a-block-boundary')
+    rec.nt(tail or 'manystrata' in case or 'blocky' in case, key=[Yl, Xl, r, c] if n <= 64 else [{k: v for k, v in case.items() if k in ('gen', 'strata', 'manystrata', 'blocky')}, r, c])
     rec.cls('quota=0' if q == 0 else 'quota>0')
     if 'manystrata' in case:
         rec.cls('floor(rn)-exact-multiple-of-many-strata')
@@ -312,7 +349,7 @@ def oracle(case, rec):
         rec.cls('inside-probe-changes-score' if b2[1] != allbits[0] else 'inside-probe-same-score')
 
 
-ORACLES = {k: oracle for k in ('C04/subsampled', 'C04/abnormal-termination', 'C04/determinism', 'C04/sample-model',
+ORACLES = {k: oracle for k in ('C04/wide', 'C04/subsampled', 'C04/abnormal-termination', 'C04/determinism', 'C04/sample-model',
                                'C04/outside-rows')}
 
 
@@ -323,7 +360,8 @@ def run(ctx):
             os.unlink(f)
         except OSError:
             pass
-    clauses = [Clause('C04/subsampled', c04_case, oracle, quick=1600, thorough=60000, quick_shards=8, thorough_shards=16)]
+    clauses = [Clause('C04/subsampled', c04_case, oracle, quick=1600, thorough=60000, quick_shards=8, thorough_shards=16),
+               Clause('C04/wide', wide_case, oracle, quick=4, thorough=96, quick_shards=2, thorough_shards=16)]
     drive(ctx, clauses)
     probes = ctx.stats.classes.get('inside-probe-changes-score', 0)
     ctx.extra['inside_probes_that_changed_the_score'] = probes
